@@ -85,6 +85,12 @@ def cases(rng, tier):
 	n = 60000 if tier == 'thorough' else 6000
 	for _ in range(n):
 		yield ('c', gen_spec(rng), rng.choice(OPS))
+	# range responses: the framing of a 206 (single range, also reaching beyond the end; several ranges) and of what is sent instead
+	for _ in range(n // 6):
+		size = rng.choice((2, 9, 64, 300, 4096))
+		a, b = rng.randrange(0, size + 3), rng.randrange(0, size + 120)
+		v = rng.choice(('bytes=%d-%d' % (a, b), 'bytes=%d-%d' % (min(a, b), max(a, b)), 'bytes=%d-' % a, 'bytes=-%d' % b, 'bytes=0-%d' % (size - 1), 'bytes=0-0,%d-%d' % (size // 2, size + 5), 'bytes=1-2,4-6'))
+		yield ('rng', size, v, rng.choice(('bytes', 'text', 'bytesio', 'file')), rng.choice((('prepare', 'compose'), ('prepare', 'prepare', 'compose'), ('prepare', 'compose', 'prepare', 'compose'))))
 
 
 def search(rng, res):
@@ -137,7 +143,54 @@ def opstr(ops):
 	return ''.join('p' if o == 'prepare' else 'c' for o in ops)
 
 
+def build_range(case):
+	from httoop import Request, Response
+	from httoop.semantic.response import ComposedResponse
+	_, size, v, source, ops = case
+	data = bytes((i * 5 + 1) % 251 for i in range(size)) if source != 'text' else (b'0123456789' * (size // 10 + 1))[:size]
+	b = cu.Built()
+	b.keep = []
+	req = Request('GET', '/x', protocol=(1, 1))
+	req.headers['Range'] = v
+	resp = Response(200, protocol=(1, 1))
+	resp.body = cu.make_source(source, (data,), b.keep)
+	resp.headers['ETag'] = '"v1"'
+	b.message, b.request, b.composer = resp, req, ComposedResponse(resp, req)
+	return b
+
+
+def oracle_range(case):
+	ops = case[4]
+	b = build_range(case)
+	outs = []
+	try:
+		for op in ops:
+			if op == 'prepare':
+				b.composer.prepare()
+			else:
+				outs.append(b''.join(b.composer))
+	except Exception as e:
+		return {'what': 'prepare()/compose of a range response raised %s: %s' % (exc_name(e), e), 'case': describe(case), 'finding': None}
+	finally:
+		cu.close(b)
+	for i, w in enumerate(outs):
+		try:
+			msg = cu.read_message(w, 'response', 'GET')
+		except cu.Malformed as e:
+			return {'what': 'range response, output %d is not one well-formed message: %s' % (i, e), 'wire': w[:400].hex(), 'case': describe(case), 'finding': None}
+		if msg['rest']:
+			return {'what': 'range response, output %d: %d octets follow the message (%s framing)' % (i, len(msg['rest']), msg['framing']), 'wire': w[:400].hex(), 'case': describe(case), 'finding': None}
+		if msg['framing'] == 'close':
+			return {'what': 'range response, output %d has neither Content-Length nor chunked framing' % i, 'wire': w[:400].hex(), 'case': describe(case), 'finding': None}
+	for i, w in enumerate(outs[1:], 1):
+		if cu.undate(w) != cu.undate(outs[0]):
+			return {'what': 'range response, output %d differs from output 0 (apart from Date): not repeatable' % i, 'a': outs[0][:300].hex(), 'b': w[:300].hex(), 'case': describe(case), 'finding': None}
+	return None
+
+
 def model_lines(case):
+	if case[0] == 'rng':
+		return None
 	_, spec, ops = case
 	kind, method, target, status, version, fields, source, pieces, chunked, coding, req_method, req_version = spec
 	_fix_gzip_time()
@@ -187,6 +240,8 @@ def impl_lines(case):
 
 
 def oracle(case):
+	if case[0] == 'rng':
+		return oracle_range(case)
 	_, spec, ops = case
 	kind, method, target, status, version, fields, source, pieces, chunked, coding, req_method, req_version = spec
 	try:
@@ -222,12 +277,17 @@ def oracle(case):
 
 
 def nontrivial(case, outs):
+	if case[0] == 'rng':
+		return ('rng', case[1], case[3], case[2].count(','), len(case[4]))
 	spec = case[1]
 	n = len(b''.join(spec[7]))
 	return (spec[0], spec[1] if spec[0] == 'request' else spec[3], spec[6], 0 if n == 0 else 1 if n < 4096 else 2, spec[8], spec[9], spec[4], case[2])
 
 
 def tally(case, res):
+	if case[0] == 'rng':
+		res.count('kind:range-response')
+		return
 	spec = case[1]
 	res.count('kind:' + spec[0])
 	res.count('source:' + spec[6])
@@ -236,11 +296,15 @@ def tally(case, res):
 
 
 def describe(case):
+	if case[0] == 'rng':
+		return ['rng', case[1], case[2], case[3], list(case[4])]
 	spec = case[1]
 	return ['c', [spec[0], spec[1], spec[2], spec[3], list(spec[4]), [list(f) for f in spec[5]], spec[6], [p.hex() for p in spec[7]], spec[8], spec[9], spec[10], list(spec[11])], list(case[2])]
 
 
 def undescribe(d):
+	if d[0] == 'rng':
+		return ('rng', d[1], d[2], d[3], tuple(d[4]))
 	s = d[1]
 	return ('c', (s[0], s[1], s[2], s[3], tuple(s[4]), tuple(tuple(f) for f in s[5]), s[6], tuple(bytes.fromhex(p) for p in s[7]), s[8], s[9], s[10], tuple(s[11])), tuple(d[2]))
 
